@@ -22,7 +22,7 @@ var round5Rules = map[string][]func(*report.Ctx){
 	"C05": {checkFrontEndOutcomes, checkCancelFlowsUnconditional, checkTeardownEntryPointsUnconditional, checkTimeoutArmAlwaysResets, checkNoServerTimeouts},
 	"C06": {checkFrontEndInitAndStatus, checkFrontEndOutcomes, checkCancelFlowsUnconditional, checkInitFailuresClosed, checkAppCtxMiddlewareOnRouters, checkContextClearedOnlyByReset, checkSingleEventSender, checkErrorResponseTypeVerbatim, checkBootstrapFallbackTypes, checkRuntimeLookedUpAfterSuccess},
 	"C19": {checkSingleEventSender},
-	"C15": {checkAgentMapsAsArray, checkBootstrapFallbackTypes, checkLaunchErrorVerbatim, checkAgentAutomataTruthful},
+	"C15": {checkLaunchErrorClasses, checkAgentMapsAsArray, checkBootstrapFallbackTypes, checkLaunchErrorVerbatim, checkAgentAutomataTruthful},
 	"C07": {checkNoEmptyCriticalSection, checkNilErrorNotHandled, checkFrontEndOutcomes, checkCancelFlowsUnconditional, checkInitFailuresClosed, checkTeardownEntryPointsUnconditional, checkSingleEventSender, checkRuntimeLookedUpAfterSuccess},
 	"C08": {checkAppCtxPrimitives, checkExitChannelAfterExec, checkTeardownEntryPointsUnconditional, checkHandlerClosuresStateless},
 	"C20": {checkHandlerClosuresStateless, checkCropOwnLength},
@@ -2227,4 +2227,44 @@ func checkBufferedDirectClassification(c *report.Ctx) {
 	}
 	_, max := an.Count(g, isTrailer)
 	c.Check("R-CONST", name+"/classification", "after the copy the End-Of-Response trailer is set on every path, once: Truncated exactly on a copy error, Oversized over the limit, Complete otherwise", once && max == 1 && ntr == 3 && vals["copy-error"] == "Truncated" && vals["oversized"] == "Oversized" && vals["else"] == "Complete", fpos(g), ntr, "trailer sites: %d; set on every path after the copy: %v; at most once: %v; values: %v", ntr, once, max == 1, vals)
+}
+
+// checkLaunchErrorClasses: the class of a launch error shown in the extension's status line.
+func checkLaunchErrorClasses(c *report.Ctx) {
+	f := fn(c, coreP, "MapErrorToAgentInfoErrorType")
+	if f == nil || len(f.Params) != 1 {
+		return
+	}
+	facts := an.NewFacts(f)
+	konst := func(name string) string {
+		k := c.P.Const(coreP, name)
+		if k == nil {
+			return "?" + name
+		}
+		s, _ := an.ConstString(k.Value)
+		return s
+	}
+	isPerm := func(ft an.Fact) bool {
+		cl, _ := an.CallOf(ft.Cond)
+		return ft.Val && cl != nil && an.Callee(cl) == "os.IsPermission" && cl.Call.Args[0] == ssa.Value(f.Params[0])
+	}
+	isTooMany := func(ft an.Fact) bool {
+		return an.CmpEq(ft, true, func(v ssa.Value) bool { return v == ssa.Value(f.Params[0]) }, func(v ssa.Value) bool { return an.GlobalOf(v) == "L/core.ErrTooManyExtensions" })
+	}
+	got := map[string]string{}
+	for _, e := range an.Exits(f) {
+		if len(e.Vals) != 1 {
+			continue
+		}
+		s, _ := an.ConstString(e.Vals[0])
+		cond := "otherwise"
+		if facts.Holds(e.Ret.Block(), isPerm) {
+			cond = "os.IsPermission"
+		} else if facts.Holds(e.Ret.Block(), isTooMany) {
+			cond = "ErrTooManyExtensions"
+		}
+		got[cond] = s
+	}
+	ok := got["os.IsPermission"] == konst("PermissionDenied") && got["ErrTooManyExtensions"] == konst("TooManyExtensions") && got["otherwise"] == konst("UnknownError")
+	c.Check("R-GUARD", an.FuncName(f)+"/classes", "a launch error is reported as PermissionDenied exactly when os.IsPermission says so, as TooManyExtensions exactly for that sentinel, as UnknownError otherwise", ok, fpos(f), len(got), "decoded: %v", got)
 }
